@@ -434,7 +434,16 @@ var wlBrokerBurst = Workload{
 		bubble(t, func() {
 			w := world.New(cfg)
 			b := world.NewBroker(bcfg)
-			s := w.NewSession(peerHandler(PeerOpts{AckDelay: ackDelay, DupRegack: dupRegack}), b.Handler())
+			// the client refuses the first REGISTER of n/3 (and, sending every REGACK twice, repeats that refusal later)
+			var refusedOnce sync.Map
+			po := PeerOpts{AckDelay: ackDelay, DupRegack: dupRegack, RejectRegister: func(name string) bool {
+				if name != "n/3" || i%2 == 0 {
+					return false
+				}
+				_, seen := refusedOnce.LoadOrStore(name, true)
+				return !seen
+			}}
+			s := w.NewSession(peerHandler(po), b.Handler())
 			// in a quarter of the cases every packet of the broker arrives in two TCP segments 150 ms apart
 			// (longer than the gateway's connection poll interval)
 			if (i/12)%4 == 3 {
@@ -495,6 +504,77 @@ var wlBrokerBurst = Workload{
 	},
 }
 
+// wlStaleRegack: deterministic timing of the case the burst workload only meets by chance. A QoS 0 message on
+// a new name is registered under the gateway's message ID 65535; the client answers at once (accepting or
+// refusing) and repeats that REGACK 300 ms later. 100 ms after the first message a second QoS 0 message on
+// another (or the same) new name arrives, registered under 65535 again, and this time the client answers
+// after 500 ms: the stale copy (other TopicID) arrives while the second REGISTER is outstanding and must
+// neither confirm nor fail it.
+var wlStaleRegack = Workload{
+	Name: "stale-regack",
+	N:    func(r *rt.Run) int { return 4 },
+	Run: func(t *testing.T, c *rt.Case, i int, rng *rand.Rand) *GWRun {
+		refuseFirst := i%2 == 1
+		sameName := (i/2)%2 == 1
+		cfg := world.GWConfig{Predefined: stdPredefined(), RetryDelay: 10 * time.Second, RetryCount: 2}
+		bcfg := world.BrokerCfg{FirstID: 30000}
+		g := &GWRun{Cfg: cfg, BCfg: bcfg, NSess: 1}
+		say := func(f string, a ...interface{}) { g.Script = append(g.Script, fmt.Sprintf(f, a...)) }
+		bubble(t, func() {
+			w := world.New(cfg)
+			b := world.NewBroker(bcfg)
+			var s *world.Session
+			nReg := 0
+			s = w.NewSession(func(s *world.Session, p *snref.Pkt, raw []byte) {
+				if p == nil || p.Type != snref.REGISTER {
+					return
+				}
+				nReg++
+				if nReg == 1 {
+					rc := byte(0)
+					if refuseFirst {
+						rc = 2
+					}
+					s.SNSendP(snref.Regack(p.TopicID, p.MsgID, rc))
+					q := snref.Regack(p.TopicID, p.MsgID, rc)
+					time.AfterFunc(300*time.Millisecond, func() { s.SNSendP(q) })
+					return
+				}
+				q := snref.Regack(p.TopicID, p.MsgID, 0)
+				time.AfterFunc(500*time.Millisecond, func() { s.SNSendP(q) })
+			}, b.Handler())
+			synctest.Wait()
+			send := func(p *snref.Pkt) { say("client sends %s", p); s.SNSendP(p); synctest.Wait() }
+			send(snref.Connect("cl", 60, false, true))
+			send(snref.SubscribeName(2, 0, "#"))
+			say("broker publishes QoS 0 on n/first (client %s the REGISTER and repeats its REGACK 300 ms later)", map[bool]string{false: "accepts", true: "refuses"}[refuseFirst])
+			b.Publish(s, "n/first", 0, false, []byte(fmt.Sprintf("c%d-1|", c.I)))
+			time.Sleep(100 * time.Millisecond)
+			synctest.Wait()
+			second := "n/second"
+			if sameName && refuseFirst {
+				second = "n/first"
+			}
+			say("broker publishes QoS 0 on %s (client accepts the REGISTER 500 ms later)", second)
+			b.Publish(s, second, 0, false, []byte(fmt.Sprintf("c%d-2|", c.I)))
+			time.Sleep(2 * time.Second)
+			synctest.Wait()
+			send(snref.Pingreq(""))
+			time.Sleep(time.Second)
+			synctest.Wait()
+			w.Tr.Add(0, world.Note, nil, "teardown")
+			w.Finish()
+			synctest.Wait()
+			g.Evs = w.Tr.Events()
+			handleLeaks(c, g)
+			w.WaitHarness()
+		})
+		g.Desc = fmt.Sprintf("stale-regack refuse-first=%v same-name=%v variant=%d", refuseFirst, sameName, i)
+		g.Items, g.RestOut = g.Session(0)
+		return g
+	},
+}
+
 // Hostile but decodable traffic.
 var wlTrafficHostile = mkTrafficWL("traffic-hostile", 3000, 60000, func(rng *rand.Rand) trafficOpts {
 	return trafficOpts{Steps: 4 + rng.Intn(14), Names: defaultNames, ClientID: []string{"cl", "other"}[rng.Intn(2)], Predef: trafficPredef(rng),
@@ -517,7 +597,7 @@ func TestC01(t *testing.T) {
 
 func TestC02(t *testing.T) {
 	r := rt.Start(t, "C02")
-	runWorkloads(t, r, []Workload{wlTrafficBroker, wlTrafficClean, wlSubscribeOverlap, wlTrafficOverlap, wlBrokerBurst}, func(g *GWRun) ([]monitors.V, int) {
+	runWorkloads(t, r, []Workload{wlTrafficBroker, wlTrafficClean, wlSubscribeOverlap, wlTrafficOverlap, wlBrokerBurst, wlStaleRegack}, func(g *GWRun) ([]monitors.V, int) {
 		return monitors.C02(g.Items, toPredef(g.Cfg.Predefined))
 	})
 	r.Finish(trafficRule+" Oracle C02: every broker PUBLISH injected while the client is active is delivered exactly once (DUP retransmissions aside) with the same payload/QoS/retain/message ID under a (type, ID) that the client's own knowledge - short decoding, shared predefined map, REGISTERs it accepted, SUBACK/REGACK IDs - resolves to the broker's topic.", nil)
@@ -531,4 +611,4 @@ func TestC03(t *testing.T) {
 	r.Finish(trafficRule+" Oracle C03: per packet type, the sequences on the two links correspond one-to-one in order with equal message IDs (SUBSCRIBE/UNSUBSCRIBE: resolved filter and requested QoS; SUBACK: accepted iff broker code 0-2, granted QoS, topic ID by filter kind).", nil)
 }
 
-const trafficRule = "workloads: adaptive lock-step sessions against the real handler in virtual time: CONNECT, then 4-32 random steps over {REGISTER, SUBSCRIBE (string/wildcard/short/predefined, QoS 0-2), UNSUBSCRIBE, PUBLISH (every DUP/QoS/retain combination; IDs drawn from confirmed registrations, predefined IDs 1-6 incl. client/'*' overlaps, short names, and - hostile variant - unknown/0/0xFFFF IDs, reserved type 3, wildcard names, QoS 3 subscriptions, message IDs 0/0xFFFF), PUBREL, PINGREQ, broker PUBLISH QoS 0-2 on short/predefined/registered/new names}, 4 predefined-map shapes x 3 client IDs, broker SUBACK policies {as requested, random 0-2, sometimes 0x80}, payload sizes {0,1,2,246..252,1000,7168}; the generator learns assigned IDs from the wire. plus (C01, C02, C04) broker bursts: 1-4 broker PUBLISHes back to back, three times, on new / repeated / short / predefined / registered names while the client acknowledges REGISTER and PUBLISH 0 / 1 ms / 500 ms late (and in a third of the cases sends every REGACK twice), finally publishing with every TopicID it was given, so that several gateway-initiated exchanges are in flight at once. A case is non-trivial when the oracle's antecedent fired; distinct by script."
+const trafficRule = "workloads: adaptive lock-step sessions against the real handler in virtual time: CONNECT, then 4-32 random steps over {REGISTER, SUBSCRIBE (string/wildcard/short/predefined, QoS 0-2), UNSUBSCRIBE, PUBLISH (every DUP/QoS/retain combination; IDs drawn from confirmed registrations, predefined IDs 1-6 incl. client/'*' overlaps, short names, and - hostile variant - unknown/0/0xFFFF IDs, reserved type 3, wildcard names, QoS 3 subscriptions, message IDs 0/0xFFFF), PUBREL, PINGREQ, broker PUBLISH QoS 0-2 on short/predefined/registered/new names}, 4 predefined-map shapes x 3 client IDs, broker SUBACK policies {as requested, random 0-2, sometimes 0x80}, payload sizes {0,1,2,246..252,1000,7168}; the generator learns assigned IDs from the wire. plus (C01, C02, C04) broker bursts: 1-4 broker PUBLISHes back to back, three times, on new / repeated / short / predefined / registered names while the client acknowledges REGISTER and PUBLISH 0 / 1 ms / 500 ms late (and in a third of the cases sends every REGACK twice), finally publishing with every TopicID it was given, so that several gateway-initiated exchanges are in flight at once; the client refuses the first REGISTER of one name in half of these cases; plus 4 fixed-timing 'stale REGACK' cases (a repeated accepting / refusing REGACK of an earlier REGISTER arrives while the next REGISTER with the same message ID is outstanding). A case is non-trivial when the oracle's antecedent fired; distinct by script."
